@@ -3,7 +3,7 @@
 N=$1; shift
 WT=/tmp/wt/tryr-$$
 git -C /repo worktree add --detach $WT ${BASE:-HEAD} >/dev/null 2>&1 || exit 2
-git -C $WT apply /tmp/refactors/$N/patch.diff || { echo "patch does not apply"; git -C /repo worktree remove --force $WT; exit 2; }
+git -C $WT apply ${REFDIR:-/verif/refactors}/$N/patch.diff || { echo "patch does not apply"; git -C /repo worktree remove --force $WT; exit 2; }
 cd /verif
 export VERIF_REPO=$WT
 if [ $# -eq 0 ]; then ./run_all.sh quick; else for p in "$@"; do ./check $p quick | grep "^  rule=\|^$p" | cut -c1-330; done; fi
